@@ -30,7 +30,7 @@ sys.path.insert(0, os.path.join(ROOT, "tools"))
 import gen  # noqa: E402
 import props as P  # noqa: E402
 
-NCPU = os.cpu_count() or 4
+NCPU = int(os.environ.get("VERIF_JOBS", "0")) or os.cpu_count() or 4
 GUARD = "CAPPUCCINO_VERIF_HOOKS"
 
 
